@@ -119,6 +119,7 @@ class DocGen:
         self.eid += 1
         self.n = 0
         self.mn = 0
+        self.inside = []           # words that must be rendered inside a box (first paragraph of a top-level box)
         return self.eid
 
     def w(self, k=None):
@@ -137,6 +138,7 @@ class DocGen:
         ty = rng.choice(TYPES)
         tyw = rng.choice([ty, ty, ty, ty.upper(), ty.capitalize()])
         lines = ["@" + tyw + rng.choice(["", "", " " + self.w()])]
+        open_par = True            # still in the box's first paragraph (no empty line yet)
         for _ in range(rng.randint(0, 3)):
             k = rng.random()
             if k < 0.6:
@@ -144,7 +146,12 @@ class DocGen:
             elif k < 0.8:
                 lines.append("- " + self.w())
             else:
-                lines += ["", self.w()] if rng.random() < 0.5 else [self.w()]
+                if rng.random() < 0.5:
+                    lines.append("")
+                    open_par = False
+                lines.append(self.w())
+            if open_par:
+                self.inside += self.words_of(lines[-1:])
         term = rng.choice(["end", "end", "endpre", "endpost", "blank", "next", "eof" if last else "next"])
         endw = "@end" + rng.choice([ty, ty, ty.upper()])
         if term == "end":
@@ -261,7 +268,8 @@ class DocGen:
             if not body:
                 body = [self.w()]
             lines = body
-        return dict(eid=eid, lines=lines, words=self.words_of(body), meta=meta, kinds=kinds, region=region)
+        return dict(eid=eid, lines=lines, words=self.words_of(body), meta=meta, kinds=kinds, region=region,
+                    inside=list(self.inside))
 
     @staticmethod
     def words_of(lines):
